@@ -38,12 +38,22 @@ def render(doc):
     return json.dumps([c_elem(e) for e in doc['els']])
 
 
-def build(scn):
+def build(scn, how=0):
+    """how the batch request is filled: 0 all at once (constructor), 1 one by one (append), 2 the first one, then the rest (extend)"""
     if scn['mode'] == 'single':
         return pjrpc.Request('m', [1], id=1)
     reqs = []
     for pos, c in enumerate(scn['calls']):
         reqs.append(pjrpc.Request('m%d' % pos, [pos], id=None if c == 'notif' else IDS[c]))
+    if how == 1:
+        b = pjrpc.BatchRequest()
+        for r in reqs:
+            b.append(r)
+        return b
+    if how == 2:
+        b = pjrpc.BatchRequest(*reqs[:1])
+        b.extend(reqs[1:])
+        return b
     return pjrpc.BatchRequest(*reqs)
 
 
@@ -67,7 +77,7 @@ def observe(scn, request, resp, ev):
         ev.append({'ev': 'Tuple', 'ids': ids, 'vals_same': bool(vals_same and by_index == ids)})
 
 
-def run_one(scn, kind, loop):
+def run_one(scn, kind, loop, how=0):
     text = render(scn['doc'])
     ev = []
     if kind == 'async':
@@ -79,7 +89,7 @@ def run_one(scn, kind, loop):
             def _request(self, request_text, is_notification=False, **kwargs):
                 return text
     client = C(strict=scn['strict'])
-    request = build(scn)
+    request = build(scn, how)
     try:
         if scn['mode'] == 'single':
             resp = loop.run_until_complete(client.send(request)) if kind == 'async' else client.send(request)
@@ -103,7 +113,9 @@ def run_one(scn, kind, loop):
 if __name__ == '__main__':
     loop = asyncio.new_event_loop()
     out = []
+    import zlib
     for s in json.load(open(sys.argv[1])):
-        out.append(run_one(s, 'sync', loop))
-        out.append(run_one(s, 'async', loop))
+        how = zlib.crc32(json.dumps(s, sort_keys=True).encode()) % 3     # not the position: the enumeration order is periodic
+        out.append(run_one(s, 'sync', loop, how))
+        out.append(run_one(s, 'async', loop, how))
     json.dump(out, open(sys.argv[2], 'w'))
